@@ -1395,6 +1395,9 @@ def check_C06(ctx):
     for n in list(range(0, 71)) + [1024, 1025, 1056, 1057]:
         hl += ['p.dirty 3 %s' % hx(g.bytes(96, 'hi')), 'p.script 3 %s' % ','.join('%s:%d' % (hx(g.bytes(g.choice([32, 32, 7, 0]))), g.choice([32, 32, 7, 0])) for _ in range(3)), 'p.inituser 3 user 1 %s' % ('NULL' if n % 2 else hx(g.bytes(n % 40))),
                'p.gen 3 %d' % n, 'p.feed 3 %s' % ('NULL' if n == 0 else hx(g.bytes(n % 50))), 'p.gen 3 %d' % (70 - n if n <= 70 else 3), 'p.reseed 3', 'p.limit 3 %d' % n, 'p.gen 3 65']
+    # HKDF at the end of its stream: a call that produces some bytes and then runs out (the rest is zero-filled, -1) must stay inside the buffer it was given
+    for (a, b) in [(8128, 64), (8150, 20), (8159, 2), (8160, 1), (8100, 100), (8128, 32)]:
+        hl += ['k.extract 2 %s %s' % (hx(g.bytes(5)), hx(g.bytes(3))), 'k.expand 2 03 %d' % a, 'k.expand 2 03 %d' % b, 'k.expand 2 03 7']
     hl += ['h.free 0', 'm.free 1', 'k.free 2', 'p.free 3']
     for l in hl: ctx.dist[l.split()[0]] += 1
     hi, hm = ctx.corr('length-window(incremental)', hl, ('prod', 'san'), stateless=False, nontrivial=lambda i: True)
